@@ -12,6 +12,7 @@
   already made (`replaceKids_lcompat`, `replaceKids_lcongr` of Proofs/SpineCongr.lean).
 -/
 import Proofs.SpineCongr
+import Proofs.ReplaceAligned
 import Proofs.Merge
 import Proofs.FlatReplace
 namespace PM
@@ -407,5 +408,231 @@ theorem replaceKids_merged (S : Schema) (ty : TypeId) (K K2 : List Node) (f T : 
       rw [hXt, htk, hmt]
     subst this
     exact hX2
+
+/-! ### what the two forward steps leave -/
+
+/-- the facts about one successfully applied replace the merge argument uses -/
+structure FwdFacts (S : Schema) (ty : TypeId) (K K1 : List Node) (f t : Nat) (sl : Slice) : Prop where
+  range : f ≤ t ∧ t ≤ fsize K
+  wf : sl.wf = true
+  toks : ftoks K1 = (ftoks K).take f ++ sl.toks ++ (ftoks K).drop t
+  size : fsize K1 = f + sl.toks.length + (fsize K - t)
+  depths : sl.openStart ≤ depthAt K f ∧
+    (depthAt K f : Int) - sl.openStart = (depthAt K t : Int) - sl.openEnd
+  norm : fnorm K = true → fnorm sl.content = true → fnorm K1 = true
+  valid : S.checkKids K = true → S.validContent ty K = true →
+    openValid S sl.openStart sl.openEnd sl.content = true →
+    S.checkKids K1 = true ∧ S.validContent ty K1 = true
+  lcompat : lcompat S K f (depthAt K f - sl.openStart) sl.content sl.openStart = true
+  rrel : fnorm K = true → fnorm sl.content = true → sl.openStart = 0 ∨ sl.openEnd = 0 →
+    alignedAt K1 (f + sl.toks.length) = true → RightRel S K1 (f + sl.toks.length) K t
+
+theorem fwdFacts (S : Schema) (ty : TypeId) (K K1 : List Node) (f t : Nat) (sl : Slice)
+    (h : replaceKids S ty K f t sl = .ok K1) : FwdFacts S ty K K1 f t sl := by
+  obtain ⟨hft, ht, hwf⟩ := replaceKids_guards S ty K f t sl K1 h
+  have htk := replaceKids_toks S ty K f t sl K1 h
+  have hsz : fsize K1 = f + sl.toks.length + (fsize K - t) := by
+    have := congrArg List.length htk
+    simp only [List.length_append, List.length_take, List.length_drop, ftoks_length] at this
+    omega
+  refine ⟨⟨hft, ht⟩, hwf, htk, hsz, replaceKids_depths h, fun hn hs => replaceKids_norm S ty K f t sl K1 hn hs h,
+    fun hk hv hs => replaceKids_valid S ty K f t sl K1 hk hv hs h, replaceKids_lcompat S ty K f t sl K1 h, ?_⟩
+  intro hn hsn hcl ha
+  have hpos : fsize K1 - (fsize K - t) = f + sl.toks.length := by omega
+  have hbr : bridgeCompat S (depthAt K f - sl.openStart)
+      (singleDepth sl.content sl.openStart sl.openEnd) K f K t = true := by
+    rcases hcl with h0 | h0
+    · rw [h0, singleDepth_closed_left]; exact bridgeCompat_nil S _ _ _ _ _
+    · rw [h0, singleDepth_closed_right]; exact bridgeCompat_nil S _ _ _ _ _
+  have := replaceKids_rrel S ty K K1 f t sl hn hsn h hbr (by rw [hpos]; exact ha)
+  rwa [hpos] at this
+
+/-- tokens of the result right of the inserted content are the old tokens right of `t` -/
+theorem FwdFacts.get_right {S : Schema} {ty : TypeId} {K K1 : List Node} {f t : Nat} {sl : Slice}
+    (h : FwdFacts S ty K K1 f t sl) (j : Nat) :
+    (ftoks K1)[f + sl.toks.length + j]? = (ftoks K)[t + j]? := by
+  have hl : ((ftoks K).take f ++ sl.toks).length = f + sl.toks.length := by
+    have := h.range
+    simp [ftoks_length]; omega
+  rw [h.toks, List.getElem?_append_right (by omega), hl, List.getElem?_drop]
+  congr 1; omega
+
+theorem FwdFacts.get_left {S : Schema} {ty : TypeId} {K K1 : List Node} {f t : Nat} {sl : Slice}
+    (h : FwdFacts S ty K K1 f t sl) (j : Nat) (hj : j < f) :
+    (ftoks K1)[j]? = (ftoks K)[j]? := by
+  have := h.range
+  rw [h.toks, List.append_assoc, List.getElem?_append_left (by simp [ftoks_length]; omega),
+    List.getElem?_take, if_pos hj]
+
+theorem FwdFacts.take_left {S : Schema} {ty : TypeId} {K K1 : List Node} {f t : Nat} {sl : Slice}
+    (h : FwdFacts S ty K K1 f t sl) (p : Nat) (hp : p ≤ f) :
+    (ftoks K1).take p = (ftoks K).take p := by
+  have := h.range
+  rw [h.toks, List.append_assoc, take_app_le _ _ _ (by simp [ftoks_length]; omega), List.take_take,
+    Nat.min_eq_left hp]
+
+theorem depthAt_of_take_eq (K K1 : List Node) (p : Nat) (hp : p ≤ fsize K) (hp1 : p ≤ fsize K1)
+    (h : (ftoks K1).take p = (ftoks K).take p) : depthAt K1 p = depthAt K p := by
+  have h1 := depthAt_balance K p hp
+  have h2 := depthAt_balance K1 p hp1
+  rw [h] at h2
+  omega
+
+/-- pair-alignment at `p` in `K` follows from pair-alignment at `q` in `K1` when the tokens around agree -/
+theorem alignedAt_shift (K K1 : List Node) (p q : Nat) (hn : fnorm K = true) (hn1 : fnorm K1 = true)
+    (hp : 0 < p) (hq : 0 < q) (h1 : (ftoks K)[p - 1]? = (ftoks K1)[q - 1]?)
+    (h2 : (ftoks K)[p]? = (ftoks K1)[q]?) (ha : alignedAt K1 q = true) : alignedAt K p = true := by
+  rw [alignedAt_toks K p hn, tokAligned_shift _ _ p q hp hq h1 h2, ← alignedAt_toks K1 q hn1]
+  exact ha
+
+/-! ### the two `merge` branches at the level of child lists -/
+
+/-- **the second step starts where the first one's content ends** (first slice closed on the right,
+    second closed on the left; open on the outer sides) -/
+theorem replaceKids_merge_open (S : Schema) (htr : CompatTrans S) (ty : TypeId) (K K1 K2 : List Node)
+    (f t f' t' : Nat) (c c' : List Node) (a b : Nat)
+    (hvc : S.validContent ty K = true) (hv : S.checkKids K = true) (hn : fnorm K = true)
+    (hcn : fnorm c = true) (hcn' : fnorm c' = true)
+    (hp : openValid S a 0 c = true) (hp' : openValid S 0 b c' = true)
+    (hr1 : replaceKids S ty K f t ⟨c, a, 0⟩ = .ok K1)
+    (hr2 : replaceKids S ty K1 f' t' ⟨c', 0, b⟩ = .ok K2)
+    (hf' : f' = f + (Slice.mk c a 0).toks.length)
+    (ha1 : alignedAt K1 f = true)
+    (ha2 : alignedAt K2 f' = true ∧ alignedAt K2 (f' + (Slice.mk c' 0 b).toks.length) = true) :
+    replaceKids S ty K f (t + (t' - f')) ⟨fappend c c', a, b⟩ = .ok K2 := by
+  have F1 := fwdFacts S ty K K1 f t _ hr1
+  have F2 := fwdFacts S ty K1 K2 f' t' _ hr2
+  have hn1 := F1.norm hn hcn
+  have hn2 := F2.norm hn1 hcn'
+  have haK : alignedAt K f = true := (replaceKids_aligned S ty K f t _ K1 hr1).1
+  have haK1 := replaceKids_aligned S ty K1 f' t' _ K2 hr2
+  have haK2 : alignedAt K2 f = true ∧ alignedAt K2 (f' + (Slice.mk c' 0 b).toks.length) = true := by
+    refine ⟨?_, ha2.2⟩
+    by_cases he : f' = f
+    · rw [← he]; exact ha2.1
+    · exact alignedAt_transfer K2 K1 f hn2 hn1 (F2.get_left (f - 1) (by omega)).symm
+        (F2.get_left f (by omega)).symm ha1
+  obtain ⟨hv1, hvc1⟩ := F1.valid hv hvc hp
+  obtain ⟨hv2, hvc2⟩ := F2.valid hv1 hvc1 hp'
+  have hwf1 := F1.wf
+  have hwf2 := F2.wf
+  simp only [Slice.wf, Bool.and_eq_true, decide_eq_true_eq] at hwf1 hwf2
+  obtain ⟨hft, ht⟩ := F1.range
+  obtain ⟨hft', ht'⟩ := F2.range
+  have hsz1 := F1.size
+  have hd1 := F1.depths
+  have hd2 := F2.depths
+  simp only at hd1 hd2 hsz1
+  generalize hTA : (Slice.mk c a 0).toks = TA at *
+  generalize hTB : (Slice.mk c' 0 b).toks = TB at *
+  subst hf'
+  -- right of the first step's content
+  have R1 : RightRel S K1 (f + TA.length) K t := by
+    have := F1.rrel hn hcn (.inr rfl)
+    rw [hTA] at this
+    exact this haK1.1
+  have hTle : t + (t' - (f + TA.length)) ≤ fsize K := by omega
+  have haT : alignedAt K (t + (t' - (f + TA.length))) = true := by
+    by_cases hd : t' - (f + TA.length) = 0
+    · rw [hd]; exact R1.aligned.2
+    · obtain ⟨j, hj⟩ : ∃ j, t' = f + TA.length + (j + 1) := ⟨t' - (f + TA.length) - 1, by omega⟩
+      have g1 := F1.get_right j
+      have g2 := F1.get_right (j + 1)
+      rw [hTA] at g1 g2
+      refine alignedAt_shift K K1 _ t' hn hn1 (by omega) (by omega) ?_ ?_ haK1.2
+      · rw [show t + (t' - (f + TA.length)) - 1 = t + j by omega, ← g1]
+        congr 1; omega
+      · rw [show t + (t' - (f + TA.length)) = t + (j + 1) by omega, ← g2]
+        congr 1; omega
+  have R1s := R1.shift (t' - (f + TA.length)) hTle haT
+  rw [show f + TA.length + (t' - (f + TA.length)) = t' by omega] at R1s
+  -- right of the second step's content
+  have R2 : RightRel S K2 (f + TA.length + TB.length) K1 t' := by
+    have := F2.rrel hn1 hcn' (.inl rfl)
+    rw [hTB] at this
+    exact this haK2.2
+  have hR : RightRel S K (t + (t' - (f + TA.length))) K2 (f + TA.length + TB.length) :=
+    (R2.trans htr R1s).symm
+  -- tokens of the pair's result
+  have htk : ftoks K2 = (ftoks K).take f ++ (TA ++ TB) ++ (ftoks K).drop (t + (t' - (f + TA.length))) := by
+    have h2 := F2.toks
+    rw [hTB, F1.toks, hTA] at h2
+    rw [h2]
+    exact splice_splice_right (ftoks K) TA TB f t t' (by rw [ftoks_length]; omega) hft'
+  have hdR1 := R1.depth
+  have hdR1s := R1s.depth
+  have hc := F1.lcompat
+  simp only at hc
+  exact replaceKids_merged S ty K K2 f _ c c' a b hn hvc2 hv2 hn2 hcn hcn' hwf1.1 hwf2.2 (by omega) hTle
+    (by rw [hTA, hTB]; exact htk) haK haK2.1 (by rw [hTA, hTB]; exact hR) hd1.1 (by omega) hc
+
+/-- **the second step ends where the first one starts** (first slice closed on the left, second closed
+    on the right; open on the outer sides) -/
+theorem replaceKids_merge_open_left (S : Schema) (htr : CompatTrans S) (ty : TypeId)
+    (K K1 K2 : List Node) (f t f' : Nat) (c c' : List Node) (a b : Nat)
+    (hvc : S.validContent ty K = true) (hv : S.checkKids K = true) (hn : fnorm K = true)
+    (hcn : fnorm c = true) (hcn' : fnorm c' = true)
+    (hp : openValid S 0 b c = true) (hp' : openValid S a 0 c' = true)
+    (hr1 : replaceKids S ty K f t ⟨c, 0, b⟩ = .ok K1)
+    (hr2 : replaceKids S ty K1 f' f ⟨c', a, 0⟩ = .ok K2)
+    (haK1 : alignedAt K1 (f + (Slice.mk c 0 b).toks.length) = true)
+    (haK2 : alignedAt K2 f' = true ∧ alignedAt K2 (f' + (Slice.mk c' a 0).toks.length) = true) :
+    replaceKids S ty K f' t ⟨fappend c' c, a, b⟩ = .ok K2 := by
+  have F1 := fwdFacts S ty K K1 f t _ hr1
+  have F2 := fwdFacts S ty K1 K2 f' f _ hr2
+  have hn1 := F1.norm hn hcn
+  have hn2 := F2.norm hn1 hcn'
+  have haK : alignedAt K f' = true := by
+    by_cases he : f' = f
+    · rw [he]; exact (replaceKids_aligned S ty K f t _ K1 hr1).1
+    · have := F2.range
+      exact alignedAt_transfer K K1 f' hn hn1 (F1.get_left (f' - 1) (by omega))
+        (F1.get_left f' (by omega)) (replaceKids_aligned S ty K1 f' f _ K2 hr2).1
+  obtain ⟨hv1, hvc1⟩ := F1.valid hv hvc hp
+  obtain ⟨hv2, hvc2⟩ := F2.valid hv1 hvc1 hp'
+  have hwf1 := F1.wf
+  have hwf2 := F2.wf
+  simp only [Slice.wf, Bool.and_eq_true, decide_eq_true_eq] at hwf1 hwf2
+  obtain ⟨hft, ht⟩ := F1.range
+  obtain ⟨hft', ht'⟩ := F2.range
+  have hsz1 := F1.size
+  have hsz2 := F2.size
+  have hd1 := F1.depths
+  have hd2 := F2.depths
+  simp only at hd1 hd2 hsz1 hsz2
+  generalize hTB : (Slice.mk c 0 b).toks = TB at *
+  generalize hTA : (Slice.mk c' a 0).toks = TA at *
+  -- right of the first step's content
+  have R1 : RightRel S K1 (f + TB.length) K t := by
+    have := F1.rrel hn hcn (.inl rfl)
+    rw [hTB] at this
+    exact this haK1
+  -- right of the second step's content, moved past the first step's content
+  have R2 : RightRel S K2 (f' + TA.length) K1 f := by
+    have := F2.rrel hn1 hcn' (.inr rfl)
+    rw [hTA] at this
+    exact this haK2.2
+  have R2s := R2.shift TB.length (by omega) haK1
+  have hR : RightRel S K t K2 (f' + TA.length + TB.length) := (R2s.trans htr R1).symm
+  -- tokens of the pair's result
+  have htk : ftoks K2 = (ftoks K).take f' ++ (TA ++ TB) ++ (ftoks K).drop t := by
+    have h2 := F2.toks
+    rw [hTA, F1.toks, hTB] at h2
+    rw [h2]
+    exact splice_splice_left (ftoks K) TB TA f f' t (by rw [ftoks_length]; omega) hft'
+  -- depths: left of `f` the first step changed nothing
+  have e1 : depthAt K1 f' = depthAt K f' :=
+    depthAt_of_take_eq K K1 f' (by omega) (by omega) (F1.take_left f' hft')
+  have e2 : depthAt K1 f = depthAt K f :=
+    depthAt_of_take_eq K K1 f (by omega) (by omega) (F1.take_left f (Nat.le_refl _))
+  have hdR1 := R1.depth
+  -- the left-spine joins were checked by the second step, in `K1`; left of `f'` it looks like `K`
+  have hL1 : LeftRel K K1 f' :=
+    leftRel_of_toks K K1 f' hn hn1 (by omega) (by omega) haK (F1.take_left f' hft').symm
+  have hc := F2.lcompat
+  simp only at hc
+  rw [e1, ← hL1.lcompat_eq S] at hc
+  exact replaceKids_merged S ty K K2 f' t c' c a b hn hvc2 hv2 hn2 hcn' hcn hwf2.1 hwf1.2 (by omega) ht
+    (by rw [hTA, hTB]; exact htk) haK haK2.1 (by rw [hTA, hTB]; exact hR) (by omega) (by omega) hc
 
 end PM
